@@ -1,10 +1,13 @@
 (* DC11.v — dispatch entries of property C11 (quadkeys): (arguments, observed output) ↦ verdict.
    corr = the executable model's output equals the implementation's observed output (projected observables: keys as integers;
           groups in order as (zooms, parameters, pair list as a set); ID lists as sets; error as a flag);
-   prop = the property's boolean checker accepts the implementation's observed output. The checkers compute their references
-          independently of the loop models (Z.testbit interleaving, value-level decoder, ZoomCore zoom change) and are proved
-          equivalent to the Prop-level statements below. Outside the property's quantifier (malformed / invalid IDs, zooms outside
-          1..31 x 0..35, keys >= 4^zoom) the checker accepts; the error flag is still compared with the model (corr). *)
+   prop = the property's boolean checker accepts the implementation's observed output.
+   References used by the checkers: keys by the Z.testbit interleaving `interleave` and tiles by the value-level decoder `dec` (both
+   independent of the loop models); the zoom change is ZoomCore.hzoom/vzoom (shared with the model, tied to the relation `rel1` by
+   hzoom_exact/vzoom_exact). Checking is PER ELEMENT: a valid ID / key is judged against the reference, an element outside the property's
+   quantifier that the library nevertheless accepts (index outside the grid, key >= 4^zoom, negative key) against the model's own answer
+   for that element; a request the model refuses (theorems C11_*_refused) must be answered with an error. The int64 boundary (zoom > 31
+   for the encoder hook, indices beyond 2^40) and over-size calls are not judged: bad-case, resp. class "skipped". *)
 From Coq Require Import ZArith Lia String List Bool Floats.
 From SID Require Import Base Str Ids ZoomCore AltKeyCore Wire F64 Quadkey QuadkeyConv.
 Import ListNotations.
@@ -48,15 +51,21 @@ Definition pair_nodupb := nodup_b pair_eqb.
 (* bit level *)
 Definition key_domain (h x y : Z) : bool :=
   (1 <=? h) && (h <=? 31) && (0 <=? x) && (x <? 2 ^ h) && (0 <=? y) && (y <? 2 ^ h).
-(* the key of tile (x, y) at zoom h: interleaving reference via Z.testbit, and the bound *)
+(* the key of (x, y) at zoom h: interleaving reference via Z.testbit and the bound. Stated for every input of the hook: negative indices
+   count as 0 (their loop never starts), indices wider than the zoom lose their high bits, a zoom below 1 gives key 0 *)
 Definition check_key (h x y key : Z) : bool :=
-  if key_domain h x y then (key =? interleave h x y) && (0 <=? key) && (key <? 4 ^ h) else true.
+  (key =? interleave h (Z.max 0 x) (Z.max 0 y)) && (0 <=? key) && (key <? 4 ^ Z.max 0 h).
 (* the tile of key q at zoom z: inside the grid and with that key (the unique such tile) *)
+Definition tile_domain (q z : Z) : bool := (1 <=? z) && (z <=? 31) && (0 <=? q) && (q <? 4 ^ z).
+(* a key wider than the zoom (outside the quantifier, accepted by the code): the first z base-4 digits are read, i.e. the tile of
+   q / 4^(digits - z). Extra run-time reference, no theorem. *)
+Definition wide_ref (q z : Z) : Z * Z := dec (Z.to_nat z) (q / 4 ^ (Z.log2 q / 2 + 1 - z)).
 Definition check_tile (q z x y : Z) : bool :=
-  if (1 <=? z) && (z <=? 31) && (0 <=? q) && (q <? 4 ^ z)
-  then (0 <=? x) && (x <? 2 ^ z) && (0 <=? y) && (y <? 2 ^ z) && (interleave z x y =? q) else true.
-Definition check_rt (h x y key x' y' : Z) : bool :=
-  if key_domain h x y then check_key h x y key && (x' =? x) && (y' =? y) else true.
+  if tile_domain q z
+  then (0 <=? x) && (x <? 2 ^ z) && (0 <=? y) && (y <? 2 ^ z) && (interleave z x y =? q)
+  else if (1 <=? z) && (z <=? 31) && (4 ^ z <=? q) then (fst (wide_ref q z) =? x) && (snd (wide_ref q z) =? y)
+  else true.       (* negative key or zoom outside 1..31: outside the quantifier; judged by corr only *)
+Definition check_rt (h x y key x' y' : Z) : bool := check_key h x y key && (x' =? x) && (y' =? y).
 
 Lemma key_domain_spec h x y : key_domain h x y = true <-> 1 <= h <= 31 /\ 0 <= x < 2 ^ h /\ 0 <= y < 2 ^ h.
 Proof. unfold key_domain. rewrite !andb_true_iff, !Z.leb_le, !Z.ltb_lt. tauto. Qed.
@@ -64,20 +73,23 @@ Proof. unfold key_domain. rewrite !andb_true_iff, !Z.leb_le, !Z.ltb_lt. tauto. Q
 Theorem check_key_sound h x y key : 1 <= h <= 31 -> 0 <= x < 2 ^ h -> 0 <= y < 2 ^ h ->
   check_key h x y key = true <-> key = interleave h x y /\ 0 <= key < 4 ^ h.
 Proof.
-  intros Hh Hx Hy. unfold check_key. rewrite (proj2 (key_domain_spec h x y)) by tauto.
+  intros Hh Hx Hy. unfold check_key. rewrite !Z.max_r by lia.
   rewrite !andb_true_iff, Z.eqb_eq, Z.leb_le, Z.ltb_lt. tauto.
 Qed.
-(* the model's own output always passes: the code's loops compute the interleaving, inside the bound *)
+(* the model's own output passes for EVERY input: the code's loops compute the interleaving of the clamped indices, inside the bound *)
 Theorem check_key_model h x y : check_key h x y (encode h x y) = true.
 Proof.
-  unfold check_key. destruct (key_domain h x y) eqn:D; [|reflexivity]. apply key_domain_spec in D.
-  rewrite !andb_true_iff, Z.eqb_eq, Z.leb_le, Z.ltb_lt.
-  pose proof (encode_bound h x y ltac:(lia) ltac:(lia) ltac:(lia)). rewrite encode_interleave by lia. rewrite <- encode_interleave by lia. lia.
+  unfold check_key. rewrite !andb_true_iff, Z.eqb_eq, Z.leb_le, Z.ltb_lt.
+  destruct (Z.le_gt_cases 0 h) as [Hh|Hh].
+  - rewrite (Z.max_r 0 h) by lia. rewrite encode_clamp.
+    pose proof (encode_bound h (Z.max 0 x) (Z.max 0 y) Hh ltac:(lia) ltac:(lia)).
+    rewrite <- encode_interleave by lia. lia.
+  - rewrite (Z.max_l 0 h) by lia. rewrite encode_nonpos_zoom by lia. unfold interleave. replace (Z.to_nat h) with 0%nat by lia. cbn. lia.
 Qed.
 Theorem check_tile_sound q z x y : 1 <= z <= 31 -> 0 <= q < 4 ^ z ->
   check_tile q z x y = true <-> (x, y) = decode q z.
 Proof.
-  intros Hz Hq. unfold check_tile.
+  intros Hz Hq. unfold check_tile, tile_domain.
   replace ((1 <=? z) && (z <=? 31) && (0 <=? q) && (q <? 4 ^ z)) with true
     by (symmetry; rewrite !andb_true_iff, !Z.leb_le, Z.ltb_lt; lia).
   rewrite !andb_true_iff, !Z.leb_le, !Z.ltb_lt, Z.eqb_eq.
@@ -90,13 +102,14 @@ Qed.
 Theorem check_rt_sound h x y key x' y' : 1 <= h <= 31 -> 0 <= x < 2 ^ h -> 0 <= y < 2 ^ h ->
   check_rt h x y key x' y' = true <-> key = interleave h x y /\ 0 <= key < 4 ^ h /\ x' = x /\ y' = y.
 Proof.
-  intros Hh Hx Hy. unfold check_rt. rewrite (proj2 (key_domain_spec h x y)) by tauto.
+  intros Hh Hx Hy. unfold check_rt.
   rewrite !andb_true_iff, !Z.eqb_eq, check_key_sound by assumption. tauto.
 Qed.
 
 (* ---------- size guards ----------
-   The generators bound the output size of every call; the shrinker of the runner does not. A case whose output would be huge is not
-   evaluated (bad-case: the runner then discards the shrink candidate; on a generated case it is reported as a model error, never silently). *)
+   The generators bound the output size of every call; the shrinker of the runner does not. The invoker refuses an over-size call with a
+   marker value; the entry recomputes the estimate: marker and estimate above the cap -> class "skipped" (neither an evaluation nor a pass);
+   marker without an over-size estimate, or an over-size estimate without marker -> bad-case. *)
 Definition cost_limit : Z := 2000.
 Definition small_zoom (z : Z) : bool := (-64 <=? z) && (z <=? 64).
 (* number of IDs one ID expands to under (h, v) -> (oh, ov); None: absurdly many *)
@@ -132,21 +145,42 @@ Definition ids_cost_alt (ids : list string) (oq oa ze zo : Z) : list (option Z) 
 Definition items_cost (items : list qitem) (oh ov : Z) : list (option Z) :=
   map (fun it => cost1 (qz it) (qvz it) oh ov) items.
 
+Definition sids_cost (sids : list string) (oh ov : Z) : list (option Z) :=
+  map (fun s => match sid_to_eid_str s with
+                | Some e => match parse_eid e with
+                            | Some i => cost1 (eh i) (ev i) oh ov
+                            | None => Some 0
+                            end
+                | None => Some 0
+                end) sids.
+Definition is_skipped (obs : val) : bool := match obs with VS _ => true | _ => false end.
+Definition skipped_v : verdict := mkv true true "skipped" VNil.
+Definition guarded (fits : bool) (obs : val) (k : unit -> verdict) : verdict :=
+  match fits, is_skipped obs with
+  | false, true => skipped_v
+  | true, false => k tt
+  | _, _ => bad_case
+  end.
+(* indices so large that Go's int64 products in HorizontalZoom / VerticalZoom could wrap are not modelled (unbounded Z here) *)
+Definition sane_id (s : string) : bool :=
+  match parse_eid s with
+  | Some i => (Z.abs (ex i) <? 2 ^ 40) && (Z.abs (ey i) <? 2 ^ 40) && (Z.abs (ef i) <? 2 ^ 40)
+  | None => true
+  end.
+
 (* ---------- entries: hooks ---------- *)
+(* the encoder hook is judged for zooms <= 31 only: from zoom 32 on Go's int64 sum wraps, which the unbounded model does not follow *)
 Definition d_encode (args : list val) (obs : val) : verdict :=
   match args, obs with
   | [VS s], VZ key =>
-      match (match split s with a :: _ => if small_zoom (pz a) then encode_str s else None | [] => None end) with
-      | Some k =>
-          let p := match split s with
-                   | [a; b; c] => match parse a, parse b, parse c with
-                                  | Some h, Some x, Some y => check_key h x y key
-                                  | _, _, _ => true
-                                  end
-                   | _ => true
-                   end in
-          mkv (k =? key) p "-" (VZ k)
-      | None => bad_case
+      match split s with
+      | [a; b; c] =>
+          match parse a, parse b, parse c, encode_str s with
+          | Some h, Some x, Some y, Some k =>
+              if (-64 <=? h) && (h <=? 31) then mkv (k =? key) (check_key h x y key) "-" (VZ k) else bad_case
+          | _, _, _, _ => bad_case
+          end
+      | _ => bad_case
       end
   | _, _ => bad_case
   end.
@@ -160,11 +194,11 @@ Definition d_decode (args : list val) (obs : val) : verdict :=
   | _, _ => bad_case
   end.
 
-(* key := convertHorizontalIDToQuadkey("h/x/y"); (x', y') := convertQuadkeyToHorizontalID(key, h); observed [key; x'; y'] *)
+(* key := convertHorizontalIDToQuadkey("h/x/y"); (x', y') := convertQuadkeyToHorizontalID(key, h); observed [key; x'; y']; tiles of the grid only *)
 Definition d_roundtrip_key (args : list val) (obs : val) : verdict :=
   match args, obs with
   | [VZ h; VZ x; VZ y], VL [VZ key; VZ x'; VZ y'] =>
-      if negb (small_zoom h) then bad_case else
+      if negb (key_domain h x y) then bad_case else
       let k := encode h x y in
       let m := decode k h in
       mkv ((k =? key) && (fst m =? x') && (snd m =? y')) (check_rt h x y key x' y') "-" (VL [VZ k; VZ (fst m); VZ (snd m)])
@@ -190,6 +224,7 @@ Definition d_dedup (args : list val) (obs : val) : verdict :=
   | _ => bad_case
   end.
 
+(* quadkeyCheckZoom: the model IS the specification (1 <= h <= 31 and 0 <= v <= 35 as integer comparisons) *)
 Definition d_qcheck (args : list val) (obs : val) : verdict :=
   match args, obs with
   | [VZ h; VZ v], VB b => let m := qcheck h v in mkv (Bool.eqb m b) (Bool.eqb m b) "-" (VB m)
@@ -265,28 +300,41 @@ Definition corr_strs (m : result (list string)) (obs : val) : bool :=
             match as_LS obs with Some o => same_set l o && Nat.eqb (List.length l) (List.length o) | None => false end
   end.
 
-(* ---------- references, computed from ZoomCore and the Z.testbit interleaving only ---------- *)
+(* ---------- references ---------- *)
 Definition zoom_ids (oh ov : Z) (i : eid) : list eid :=
   flat_map (fun hp => map (fun f => mk oh (fst hp) (snd hp) ov f) (vzoom (ev i) (ef i) ov)) (hzoom (eh i) (ex i) (ey i) oh).
-Lemma zoom_ids_spec oh ov i j : valid i -> 0 <= oh -> 0 <= ov -> In j (zoom_ids oh ov i) <-> zrel i oh ov j.
+(* zoom_ids needs only non-negative zooms and horizontal indices *)
+Lemma zoom_ids_spec' oh ov i j : 0 <= eh i -> 0 <= ev i -> 0 <= ex i -> 0 <= ey i -> 0 <= oh -> 0 <= ov ->
+  In j (zoom_ids oh ov i) <-> zrel i oh ov j.
 Proof.
-  intros (Hh & Hv & Hx & Hy & Hf) Hoh Hov. unfold zoom_ids. rewrite in_flat_map. split.
+  intros Hh Hv Hx Hy Hoh Hov. unfold zoom_ids. rewrite in_flat_map. split.
   - intros ([x' y'] & Hp & Hj). apply in_map_iff in Hj. destruct Hj as (f & <- & Hfz).
     apply hzoom_exact in Hp; try lia. apply vzoom_exact in Hfz; try lia. unfold zrel. cbn. tauto.
   - intros (Eh & Ev & Rx & Ry & Rf). exists (ex j, ey j). split; [apply hzoom_exact; try lia; auto|].
     apply in_map_iff. exists (ef j). split; [|apply vzoom_exact; try lia; auto].
     cbn [fst snd]. destruct j; cbn in *; subst; reflexivity.
 Qed.
-Definition ref_pairs (oh ov : Z) (es : list eid) : list pair :=
-  map (fun j => (interleave oh (ex j) (ey j), ef j)) (flat_map (zoom_ids oh ov) es).
+Lemma zoom_ids_spec oh ov i j : valid i -> 0 <= oh -> 0 <= ov -> In j (zoom_ids oh ov i) <-> zrel i oh ov j.
+Proof. intros (Hh & Hv & Hx & Hy & Hf). apply zoom_ids_spec'; lia. Qed.
+Definition ref_pairs1 (oh ov : Z) (i : eid) : list pair := map (fun j => (interleave oh (ex j) (ey j), ef j)) (zoom_ids oh ov i).
+Definition ref_pairs (oh ov : Z) (es : list eid) : list pair := flat_map (ref_pairs1 oh ov) es.
 Lemma ref_pairs_spec oh ov es q f : Forall valid es -> 0 <= oh -> 0 <= ov ->
   In (q, f) (ref_pairs oh ov es) <-> exists i j, In i es /\ zrel i oh ov j /\ q = interleave oh (ex j) (ey j) /\ f = ef j.
 Proof.
-  intros V Hoh Hov. rewrite Forall_forall in V. unfold ref_pairs. rewrite in_map_iff. split.
-  - intros (j & [= <- <-] & Hj). apply in_flat_map in Hj. destruct Hj as (i & Hi & Hj).
+  intros V Hoh Hov. rewrite Forall_forall in V. unfold ref_pairs, ref_pairs1. rewrite in_flat_map. split.
+  - intros (i & Hi & Hj). apply in_map_iff in Hj. destruct Hj as (j & [= <- <-] & Hj).
     apply zoom_ids_spec in Hj; auto. exists i, j. auto.
-  - intros (i & j & Hi & Z & -> & ->). exists j. split; [reflexivity|]. apply in_flat_map. exists i. split; [exact Hi|].
+  - intros (i & j & Hi & Z & -> & ->). exists i. split; [exact Hi|]. apply in_map_iff. exists j. split; [reflexivity|].
     apply zoom_ids_spec; auto.
+Qed.
+Lemma flat_map_ext_in {A B} (f g : A -> list B) l : (forall a, In a l -> f a = g a) -> flat_map f l = flat_map g l.
+Proof. induction l as [|a r IH]; cbn; intros H; [reflexivity|]. rewrite (H a (or_introl eq_refl)), IH; [reflexivity|]. intros b Hb. apply H. now right. Qed.
+Lemma parse_all_Forall2 ids : forall es, parse_all ids = Some es -> Forall2 (fun s i => parse_eid s = Some i) ids es.
+Proof.
+  induction ids as [|s r IH]; cbn [parse_all]; intros es.
+  - intros [= <-]. constructor.
+  - destruct (parse_eid s) as [i|] eqn:E; [|discriminate]. destruct (parse_all r) as [t|]; [|discriminate].
+    intros [= <-]. constructor; [exact E|]. now apply IH.
 Qed.
 
 (* ---------- checker of a list of groups against a reference pair set ---------- *)
@@ -312,81 +360,128 @@ Proof.
 Qed.
 
 (* ---------- ConvertExtendedSpatialIDsToQuadkeysAndVerticalIDs / ConvertSpatialIDsToQuadkeysAndVerticalIDs ---------- *)
-(* the property's domain: every ID is the canonical text of a valid ID; output zooms in 1..31 x 0..35; no height range *)
+(* the property's domain: every ID is the text of a valid ID *)
 Definition ids_domain (ids : list string) : option (list eid) :=
   match parse_all ids with
   | Some es => if forallb validb es then Some es else None
   | None => None
   end.
-Definition check_e2q (ids : list string) (oh ov : Z) (p : par) (obs : val) : bool :=
-  match ids_domain ids with
-  | Some es =>
-      if qcheck oh ov then
-        if is_err obs then false else
-        match dec_groups obs with
-        | Some gs => check_groups oh ov p (ref_pairs oh ov es) gs
-        | None => false
-        end
-      else true
-  | None => true
-  end.
+Lemma ids_domain_spec ids es : ids_domain ids = Some es -> parse_all ids = Some es /\ Forall valid es.
+Proof.
+  unfold ids_domain. destruct (parse_all ids) as [l|]; [|discriminate]. destruct (forallb validb l) eqn:V; [|discriminate].
+  intros [= <-]. split; [reflexivity|]. apply Forall_forall. intros i Hi. apply validb_spec. rewrite forallb_forall in V. now apply V.
+Qed.
 
-(* the invoker's own size guard answered instead of the implementation *)
-Definition is_skipped (obs : val) : bool := match obs with VS _ => true | _ => false end.
+(* requests the model refuses: output zooms outside 1..31 x 0..35; an ID that is malformed or has a zoom outside 0..35; inverted heights
+   (or NaN) with at least one ID *)
+Definition id_refused (s : string) : bool :=
+  match parse_eid s with None => true | Some i => negb (echeck (eh i) (ev i)) end.
+Definition must_err_e2q (ids : list string) (oh ov : Z) (idx : bool) : bool :=
+  negb (qcheck oh ov) || existsb id_refused ids || (negb idx && match ids with [] => false | _ => true end).
+Theorem must_err_e2q_sound {P} (par : P) ids oh ov idx : must_err_e2q ids oh ov idx = true -> e2q par idx ids oh ov = Err.
+Proof.
+  unfold must_err_e2q. rewrite !orb_true_iff. intros [[H|H]|H].
+  - apply e2q_bad_zoom. now apply negb_true_iff.
+  - apply existsb_exists in H. destruct H as (s & Hs & Hr). unfold e2q. apply (conv_refuses _ _ _ _ ids s Hs).
+    unfold id_refused in Hr. unfold id_pairs. destruct (parse_eid s) as [i|]; [|reflexivity]. now rewrite Hr.
+  - apply andb_true_iff in H. destruct H as [Hi Hn]. apply negb_true_iff in Hi. subst idx.
+    apply e2q_inverted_heights. destruct ids; [discriminate|discriminate].
+Qed.
+Lemma domain_not_refused ids es : ids_domain ids = Some es -> existsb id_refused ids = false.
+Proof.
+  intros D. destruct (ids_domain_spec ids es D) as (Pa & V). apply parse_all_Forall2 in Pa. clear D.
+  induction Pa as [|s i r t Hs F IH]; [reflexivity|]. cbn [existsb]. inversion V as [|? ? Vi Vt]; subst.
+  rewrite (IH Vt), orb_false_r. unfold id_refused. rewrite Hs. destruct (valid_nonneg i Vi) as (_ & E & _). now rewrite E.
+Qed.
 
-Definition d_e2q_gen (conv_ids : list string -> result (list string)) (args : list val) (obs : val) : verdict :=
+(* expected pairs, per element: a valid ID by the reference, an accepted ID outside the grid by the model's own per-ID answer *)
+Definition elem_pairs (oh ov : Z) (i : eid) : list pair :=
+  if validb i then ref_pairs1 oh ov i else list_prod (hkeys oh i) (nodupb Z.eqb (vzoom (ev i) (ef i) ov)).
+Definition exp_pairs (oh ov : Z) (es : list eid) : list pair := flat_map (elem_pairs oh ov) es.
+Lemma exp_pairs_valid oh ov es : Forall valid es -> exp_pairs oh ov es = ref_pairs oh ov es.
+Proof.
+  intros V. rewrite Forall_forall in V. apply flat_map_ext_in. intros i Hi. unfold elem_pairs.
+  now rewrite (proj2 (validb_spec i) (V i Hi)).
+Qed.
+
+Definition check_e2q (ids : list string) (oh ov : Z) (idx : bool) (p : par) (obs : val) : bool :=
+  if must_err_e2q ids oh ov idx then is_err obs
+  else match parse_all ids with
+       | Some es =>
+           if is_err obs then false else
+           match dec_groups obs with
+           | Some gs => check_groups oh ov p (exp_pairs oh ov es) gs
+           | None => false
+           end
+       | None => false
+       end.
+
+Definition d_e2q_gen (sid : bool) (args : list val) (obs : val) : verdict :=
   match args with
   | [l; VZ oh; VZ ov; VF mx; VF mn] =>
       match as_LS l, height_mode mx mn with
       | Some ids0, Some idx =>
-          match conv_ids ids0 with
-          | Err => mkv (is_err obs) true "-" (VE VNil)
-          | Ok ids =>
-              if negb (cost_ok (ids_cost ids oh ov 1)) || is_skipped obs then bad_case else
-              let m := e2q (VF mx, VF mn) idx ids oh ov in
-              mkv (corr_groups m obs) (if idx then check_e2q ids oh ov (VF mx, VF mn) obs else true) "-" (enc_groups m)
-          end
+          let conv := if sid then sids_to_eids ids0 else Ok ids0 in
+          let cost := if sid then sids_cost ids0 oh ov else ids_cost ids0 oh ov 1 in
+          guarded (cost_ok cost) obs (fun _ =>
+            match conv with
+            | Err => mkv (is_err obs) (is_err obs) "-" (VE VNil)        (* a spatial ID without four fields: refused (C11_malformed_spatial_id_refused) *)
+            | Ok ids =>
+                if negb (forallb sane_id ids) then bad_case else
+                let m := e2q (VF mx, VF mn) idx ids oh ov in
+                mkv (corr_groups m obs) (check_e2q ids oh ov idx (VF mx, VF mn) obs) "-" (enc_groups m)
+            end)
       | _, _ => bad_case
       end
   | _ => bad_case
   end.
-Definition d_e2q := d_e2q_gen (fun l => Ok l).
-Definition d_s2q := d_e2q_gen sids_to_eids.
+Definition d_e2q := d_e2q_gen false.
+Definition d_s2q := d_e2q_gen true.
 
 (* ---------- ConvertExtendedSpatialIDsToQuadkeysAndAltitudekeys ---------- *)
-Definition ref_pairs_alt (oq oa E O : Z) (es : list eid) : option (list pair) :=
-  match all_opt (map (fun i => match z2key (ef i) (ev i) oa E O with
-                               | Ok (mn, mx) => Some (list_prod (map (fun hp => interleave oq (fst hp) (snd hp)) (hzoom (eh i) (ex i) (ey i) oq)) (zrange mn mx))
-                               | Err => None
-                               end) es) with
-  | Some pss => Some (List.concat pss)
-  | None => None
-  end.
-Definition check_e2qa (ids : list string) (oq oa E O : Z) (obs : val) : bool :=
-  match ids_domain ids with
-  | Some es =>
-      if qcheck oq oa then
-        match ref_pairs_alt oq oa E O es with
-        | Some exp =>
-            if is_err obs then false else
-            match dec_groups obs with
-            | Some gs => check_groups oq oa (VZ E, VZ O) exp gs
-            | None => false
-            end
-        | None => true        (* some altitude range does not exist at the output zoom: an error is the documented answer *)
-        end
-      else true
+Definition alt_refused (oa ze zo : Z) (s : string) : bool :=
+  match parse_eid s with
   | None => true
+  | Some i => negb (echeck (eh i) (ev i)) || negb (is_ok (z2key (ef i) (ev i) oa ze zo))
   end.
+Definition must_err_e2qa (ids : list string) (oq oa ze zo : Z) : bool :=
+  negb (qcheck oq oa) || existsb (alt_refused oa ze zo) ids.
+Theorem must_err_e2qa_sound ids oq oa ze zo : must_err_e2qa ids oq oa ze zo = true -> e2qa ids oq oa ze zo = Err.
+Proof.
+  unfold must_err_e2qa. rewrite orb_true_iff. intros [H|H].
+  - unfold e2qa, conv. now rewrite H.
+  - apply existsb_exists in H. destruct H as (s & Hs & Hr). unfold e2qa. apply (conv_refuses _ _ _ _ ids s Hs).
+    unfold alt_refused in Hr. unfold id_pairs, vert_alt. destruct (parse_eid s) as [i|]; [|reflexivity].
+    destruct (negb (echeck (eh i) (ev i))); [reflexivity|]. cbn [orb] in Hr.
+    destruct (z2key (ef i) (ev i) oa ze zo) as [[mn mx]|]; [discriminate|reflexivity].
+Qed.
+Definition elem_pairs_alt (oq oa ze zo : Z) (i : eid) : list pair :=
+  match z2key (ef i) (ev i) oa ze zo with
+  | Ok (mn, mx) =>
+      list_prod (if validb i then map (fun hp => interleave oq (fst hp) (snd hp)) (hzoom (eh i) (ex i) (ey i) oq) else hkeys oq i) (zrange mn mx)
+  | Err => []
+  end.
+Definition check_e2qa (ids : list string) (oq oa ze zo : Z) (obs : val) : bool :=
+  if must_err_e2qa ids oq oa ze zo then is_err obs
+  else match parse_all ids with
+       | Some es =>
+           if is_err obs then false else
+           match dec_groups obs with
+           | Some gs => check_groups oq oa (VZ ze, VZ zo) (flat_map (elem_pairs_alt oq oa ze zo) es) gs
+           | None => false
+           end
+       | None => false
+       end.
 Definition lift_par (g : group (Z * Z)) : group par := mkg (g_hz g) (g_vz g) (VZ (fst (g_par g)), VZ (snd (g_par g))) (g_pairs g).
 Definition d_e2qa (args : list val) (obs : val) : verdict :=
   match args with
   | [l; VZ oq; VZ oa; VZ ze; VZ zo] =>
       match as_LS l with
       | Some ids =>
-          if negb (cost_ok (ids_cost_alt ids oq oa ze zo)) || is_skipped obs then bad_case else
-          let m := match e2qa ids oq oa ze zo with Ok gs => Ok (map lift_par gs) | Err => Err end in
-          mkv (corr_groups m obs) (check_e2qa ids oq oa ze zo obs) "-" (enc_groups m)
+          guarded (cost_ok (ids_cost_alt ids oq oa ze zo)) obs (fun _ =>
+            if negb (forallb sane_id ids) || negb (Z.abs zo <? 2 ^ 40) then bad_case else
+            let m := match e2qa ids oq oa ze zo with Ok gs => Ok (map lift_par gs) | Err => Err end in
+            mkv (corr_groups m obs) (check_e2qa ids oq oa ze zo obs) "-" (enc_groups m))
       | None => bad_case
       end
   | _ => bad_case
@@ -412,17 +507,6 @@ Proof.
   intros V. pose proof (tile_of_valid it V) as (Bx & By & _). destruct V as (Hc & _). apply qcheck_spec in Hc.
   unfold tile_of in *. cbn [eh ev ex ey mk] in *. lia.
 Qed.
-(* zoom_ids needs only non-negative zooms and horizontal indices *)
-Lemma zoom_ids_spec' oh ov i j : 0 <= eh i -> 0 <= ev i -> 0 <= ex i -> 0 <= ey i -> 0 <= oh -> 0 <= ov ->
-  In j (zoom_ids oh ov i) <-> zrel i oh ov j.
-Proof.
-  intros Hh Hv Hx Hy Hoh Hov. unfold zoom_ids. rewrite in_flat_map. split.
-  - intros ([x' y'] & Hp & Hj). apply in_map_iff in Hj. destruct Hj as (f & <- & Hfz).
-    apply hzoom_exact in Hp; try lia. apply vzoom_exact in Hfz; try lia. unfold zrel. cbn. tauto.
-  - intros (Eh & Ev & Rx & Ry & Rf). exists (ex j, ey j). split; [apply hzoom_exact; try lia; auto|].
-    apply in_map_iff. exists (ef j). split; [|apply vzoom_exact; try lia; auto].
-    cbn [fst snd]. destruct j; cbn in *; subst; reflexivity.
-Qed.
 Lemma ref_ids_spec oh ov items j : Forall qvalid items -> 0 <= oh -> 0 <= ov ->
   In j (ref_ids oh ov items) <-> exists it, In it items /\ zrel (tile_of it) oh ov j.
 Proof.
@@ -437,29 +521,52 @@ Definition check_strs (exp obs : list string) : bool := str_nodupb obs && str_se
 Theorem check_strs_sound exp obs : check_strs exp obs = true <-> NoDup obs /\ forall s, In s obs <-> In s exp.
 Proof. exact (check_dedup_sound exp obs). Qed.
 
-Definition check_q2e (items : list qitem) (oh ov : Z) (obs : val) : bool :=
-  if forallb qvalidb items && echeck oh ov then
-    if is_err obs then false else
-    match as_LS obs with
-    | Some o => check_strs (map print_eid (ref_ids oh ov items)) o
-    | None => false
-    end
-  else true.
-Definition check_q2s (items : list qitem) (z : Z) (obs : val) : bool :=
-  if forallb qvalidb items && echeck z z then
-    if is_err obs then false else
-    match as_LS obs with
-    | Some o => check_strs (map (fun j => print_sid z (ef j) (ex j) (ey j)) (ref_ids z z items)) o
-    | None => false
-    end
-  else true.
+(* requests the model refuses: output zooms outside 0..35; an element with zooms outside 1..31 x 0..35, a key above the literal limit, or
+   inverted heights *)
+Definition must_err_q2e (items : list qitem) (oh ov : Z) : bool := negb (echeck oh ov) || existsb item_refused items.
+Theorem must_err_q2e_sound items oh ov : must_err_q2e items oh ov = true -> q2e items oh ov = Err.
+Proof.
+  unfold must_err_q2e. rewrite orb_true_iff. intros [H|H].
+  - apply q2e_bad_zoom. now apply negb_true_iff.
+  - apply existsb_exists in H. destruct H as (it & Hit & Hr). now apply (q2e_refuses items oh ov it).
+Qed.
+Lemma qvalid_not_refused items : Forall qvalid items -> existsb item_refused items = false.
+Proof.
+  induction 1 as [|it r V F IH]; [reflexivity|]. cbn [existsb]. rewrite IH, orb_false_r.
+  destruct V as (Hc & Hk & Hi). unfold item_refused. rewrite Hc, Hi. cbn [negb orb]. rewrite orb_false_r.
+  apply Z.ltb_ge. pose proof Hc as Hc'. apply qcheck_spec in Hc'. pose proof (pow4_le_limit (qz it) ltac:(lia)). lia.
+Qed.
+(* per element: a valid key by the reference decoder, an accepted key outside [0, 4^zoom) by the model's own decoder *)
+Definition elem_ids (oh ov : Z) (it : qitem) : list eid := zoom_ids oh ov (if qvalidb it then tile_ref it else tile_of it).
+Lemma elem_ids_valid oh ov items : Forall qvalid items -> flat_map (elem_ids oh ov) items = ref_ids oh ov items.
+Proof.
+  intros F. rewrite Forall_forall in F. apply flat_map_ext_in. intros it Hit. unfold elem_ids.
+  now rewrite (proj2 (qvalidb_spec it) (F it Hit)).
+Qed.
 
+Definition check_q2e (items : list qitem) (oh ov : Z) (obs : val) : bool :=
+  if must_err_q2e items oh ov then is_err obs
+  else if is_err obs then false else
+    match as_LS obs with
+    | Some o => check_strs (map print_eid (flat_map (elem_ids oh ov) items)) o
+    | None => false
+    end.
+Definition check_q2s (items : list qitem) (z : Z) (obs : val) : bool :=
+  if must_err_q2e items z z then is_err obs
+  else if is_err obs then false else
+    match as_LS obs with
+    | Some o => check_strs (map (fun j => print_sid z (ef j) (ex j) (ey j)) (flat_map (elem_ids z z) items)) o
+    | None => false
+    end.
+
+Definition sane_item (it : qitem) : bool := Z.abs (qvi it) <? 2 ^ 40.
 Definition d_q2e (args : list val) (obs : val) : verdict :=
   match args with
   | [l; VZ oh; VZ ov] =>
       match dec_items l with
-      | Some items => if negb (cost_ok (items_cost items oh ov)) || is_skipped obs then bad_case else
-                      let m := q2e items oh ov in mkv (corr_strs m obs) (check_q2e items oh ov obs) "-" (enc_strs m)
+      | Some items => guarded (cost_ok (items_cost items oh ov)) obs (fun _ =>
+                        if negb (forallb sane_item items) then bad_case else
+                        let m := q2e items oh ov in mkv (corr_strs m obs) (check_q2e items oh ov obs) "-" (enc_strs m))
       | None => bad_case
       end
   | _ => bad_case
@@ -468,34 +575,39 @@ Definition d_q2s (args : list val) (obs : val) : verdict :=
   match args with
   | [l; VZ z] =>
       match dec_items l with
-      | Some items => if negb (cost_ok (items_cost items z z)) || is_skipped obs then bad_case else
-                      let m := q2s items z in mkv (corr_strs m obs) (check_q2s items z obs) "-" (enc_strs m)
+      | Some items => guarded (cost_ok (items_cost items z z)) obs (fun _ =>
+                        if negb (forallb sane_item items) then bad_case else
+                        let m := q2s items z in mkv (corr_strs m obs) (check_q2s items z obs) "-" (enc_strs m))
       | None => bad_case
       end
   | _ => bad_case
   end.
 
-(* ---------- round trip: IDs -> groups at (oh, ov) -> IDs at (bh, bv); observed [groups; back] ---------- *)
+(* ---------- round trip: IDs -> groups at (oh, ov) -> IDs at (bh, bv); observed [groups; back], or an error if either call failed ---------- *)
 Definition same_zooms (es : list eid) (oh ov bh bv : Z) : bool :=
   forallb (fun i => (eh i =? oh) && (ev i =? ov)) es && (bh =? oh) && (bv =? ov).
+Definition exp2 (oh ov bh bv : Z) (es : list eid) : list string :=
+  map print_eid (flat_map (zoom_ids bh bv) (flat_map (zoom_ids oh ov) es)).
 Definition check_roundtrip (ids : list string) (oh ov bh bv : Z) (p : par) (obs : val) : bool :=
-  match ids_domain ids with
-  | Some es =>
-      if qcheck oh ov && echeck bh bv then
-        match obs with
-        | VL [og; ob] =>
-            match as_LS ob with
-            | Some back =>
-                check_e2q ids oh ov p og &&
-                check_strs (map print_eid (flat_map (zoom_ids bh bv) (flat_map (zoom_ids oh ov) es))) back &&
-                (if same_zooms es oh ov bh bv then str_seteqb back (map print_eid es) else true)
-            | None => false
-            end
-        | _ => false
-        end
-      else true
-  | None => true
-  end.
+  if must_err_e2q ids oh ov true || negb (echeck bh bv) then is_err obs
+  else match parse_all ids with
+       | Some es =>
+           match obs with
+           | VL [og; ob] =>
+               match as_LS ob with
+               | Some back =>
+                   check_e2q ids oh ov true p og &&
+                   (if forallb validb es
+                    then check_strs (exp2 oh ov bh bv es) back &&
+                         (if same_zooms es oh ov bh bv then str_seteqb back (map print_eid es) else true)
+                    else (* a member outside the grid was accepted: no ID twice, and the valid members' IDs are all there *)
+                         str_nodupb back && inclb String.eqb (exp2 oh ov bh bv (filter validb es)) back)
+               | None => false
+               end
+           | _ => false
+           end
+       | None => false
+       end.
 Definition roundtrip_model (ids : list string) (oh ov bh bv : Z) (p : par) : result (list (group par) * list string) :=
   match e2q p true ids oh ov with
   | Err => Err
@@ -506,114 +618,104 @@ Definition d_roundtrip (args : list val) (obs : val) : verdict :=
   | [l; VZ oh; VZ ov; VF mx; VF mn; VZ bh; VZ bv] =>
       match as_LS l, height_mode mx mn with
       | Some ids, Some true =>
-          if negb (match cost1 oh ov bh bv with Some c => cost_ok (ids_cost ids oh ov c) | None => false end) || is_skipped obs then bad_case else
-          let p := (VF mx, VF mn) in
-          match roundtrip_model ids oh ov bh bv p with
-          | Err => mkv (is_err obs) (check_roundtrip ids oh ov bh bv p obs) "-" (VE VNil)
-          | Ok (gs, back) =>
-              let c := match obs with
-                       | VL [og; ob] => corr_groups (Ok gs) og && corr_strs (Ok back) ob
-                       | _ => false
-                       end in
-              mkv c (check_roundtrip ids oh ov bh bv p obs) "-" (VL [enc_groups (Ok gs); of_LS back])
-          end
+          guarded (match cost1 oh ov bh bv with Some c => cost_ok (ids_cost ids oh ov c) | None => false end) obs (fun _ =>
+            if negb (forallb sane_id ids) then bad_case else
+            let p := (VF mx, VF mn) in
+            match roundtrip_model ids oh ov bh bv p with
+            | Err => mkv (is_err obs) (check_roundtrip ids oh ov bh bv p obs) "-" (VE VNil)
+            | Ok (gs, back) =>
+                let c := match obs with
+                         | VL [og; ob] => corr_groups (Ok gs) og && corr_strs (Ok back) ob
+                         | _ => false
+                         end in
+                mkv c (check_roundtrip ids oh ov bh bv p obs) "-" (VL [enc_groups (Ok gs); of_LS back])
+            end)
       | _, _ => bad_case
       end
   | _ => bad_case
   end.
 
 (* ====================================================================================================== *)
-(* soundness of the list-level checkers: acceptance = the Prop-level statement on the observed output *)
-Lemma ids_domain_spec ids es : ids_domain ids = Some es -> parse_all ids = Some es /\ Forall valid es.
+(* soundness of the list-level checkers: inside the quantifier, acceptance = the Prop-level statement on the observed output *)
+Lemma domain_e2q ids es oh ov : ids_domain ids = Some es -> qcheck oh ov = true ->
+  must_err_e2q ids oh ov true = false /\ parse_all ids = Some es /\ exp_pairs oh ov es = ref_pairs oh ov es /\ forallb validb es = true.
 Proof.
-  unfold ids_domain. destruct (parse_all ids) as [l|]; [|discriminate]. destruct (forallb validb l) eqn:V; [|discriminate].
-  intros [= <-]. split; [reflexivity|]. apply Forall_forall. intros i Hi. apply validb_spec. rewrite forallb_forall in V. now apply V.
+  intros D Hq. destruct (ids_domain_spec ids es D) as (Pa & V). unfold must_err_e2q.
+  rewrite Hq, (domain_not_refused ids es D). cbn. repeat split; auto. now apply exp_pairs_valid.
+  apply forallb_forall. intros i Hi. apply validb_spec. rewrite Forall_forall in V. now apply V.
 Qed.
 
 Theorem check_e2q_sound ids es oh ov p gs obs : ids_domain ids = Some es -> qcheck oh ov = true ->
   is_err obs = false -> dec_groups obs = Some gs ->
-  check_e2q ids oh ov p obs = true <->
+  check_e2q ids oh ov true p obs = true <->
   (forall g, In g gs -> g_hz g = oh /\ g_vz g = ov /\ par_eqb (g_par g) p = true /\ g_pairs g <> []) /\
   NoDup (List.concat (map g_pairs gs)) /\
   (forall q f, In (q, f) (List.concat (map g_pairs gs)) <->
      exists i j, In i es /\ zrel i oh ov j /\ q = interleave oh (ex j) (ey j) /\ f = ef j).
 Proof.
-  intros D Hq He Hg. unfold check_e2q. rewrite D, Hq, He, Hg. rewrite check_groups_sound.
+  intros D Hq He Hg. destruct (domain_e2q ids es oh ov D Hq) as (M & Pa & Ex & _).
+  unfold check_e2q. rewrite M, Pa, He, Hg, Ex. rewrite check_groups_sound.
   destruct (ids_domain_spec ids es D) as (_ & V). apply qcheck_spec in Hq.
   split; intros (A & B & C); (split; [exact A|split; [exact B|]]).
   - intros q f. rewrite C. apply ref_pairs_spec; auto; lia.
   - intros [q f]. rewrite C. symmetry. apply ref_pairs_spec; auto; lia.
 Qed.
-(* in the domain an error is rejected *)
+(* in the domain an error is rejected; a refused request must be answered with an error *)
 Theorem check_e2q_rejects_error ids es oh ov p obs : ids_domain ids = Some es -> qcheck oh ov = true -> is_err obs = true ->
-  check_e2q ids oh ov p obs = false.
-Proof. intros D Hq He. unfold check_e2q. now rewrite D, Hq, He. Qed.
+  check_e2q ids oh ov true p obs = false.
+Proof. intros D Hq He. destruct (domain_e2q ids es oh ov D Hq) as (M & Pa & _). unfold check_e2q. now rewrite M, Pa, He. Qed.
+Theorem check_e2q_demands_error ids oh ov idx p obs : must_err_e2q ids oh ov idx = true -> check_e2q ids oh ov idx p obs = is_err obs.
+Proof. intros M. unfold check_e2q. now rewrite M. Qed.
 
 Theorem check_q2e_sound items oh ov o obs : Forall qvalid items -> echeck oh ov = true -> is_err obs = false -> as_LS obs = Some o ->
   check_q2e items oh ov obs = true <->
   NoDup o /\ forall s, In s o <-> exists it j, In it items /\ zrel (tile_of it) oh ov j /\ s = print_eid j.
 Proof.
-  intros F He Hn Ho. unfold check_q2e.
-  assert (Fb : forallb qvalidb items = true).
-  { apply forallb_forall. intros it Hit. apply qvalidb_spec. rewrite Forall_forall in F. now apply F. }
-  rewrite Fb, He, Hn, Ho. cbn [andb]. rewrite check_strs_sound. apply echeck_spec in He.
+  intros F He Hn Ho. unfold check_q2e, must_err_q2e. rewrite He, (qvalid_not_refused items F). cbn [negb orb].
+  rewrite Hn, Ho, (elem_ids_valid oh ov items F). rewrite check_strs_sound. apply echeck_spec in He.
   assert (R : forall s, In s (map print_eid (ref_ids oh ov items)) <-> exists it j, In it items /\ zrel (tile_of it) oh ov j /\ s = print_eid j).
   { intros s. rewrite in_map_iff. split.
     - intros (j & <- & Hj). apply ref_ids_spec in Hj; auto; try lia. destruct Hj as (it & Hit & Z). eauto.
     - intros (it & j & Hit & Z & ->). exists j. split; [reflexivity|]. apply ref_ids_spec; auto; try lia. eauto. }
   split; intros (A & B); (split; [exact A|]); intros s; rewrite B; [apply R|symmetry; apply R].
 Qed.
+Theorem check_q2e_demands_error items oh ov obs : must_err_q2e items oh ov = true -> check_q2e items oh ov obs = is_err obs.
+Proof. intros M. unfold check_q2e. now rewrite M. Qed.
 
-Lemma all_opt_concat_In {A B} (f : A -> option (list B)) l : forall r x, all_opt (map f l) = Some r ->
-  (In x (List.concat r) <-> exists a ps, In a l /\ f a = Some ps /\ In x ps).
+Theorem check_q2s_sound items z o obs : Forall qvalid items -> echeck z z = true -> is_err obs = false -> as_LS obs = Some o ->
+  check_q2s items z obs = true <->
+  NoDup o /\ forall s, In s o <-> exists it j, In it items /\ zrel (tile_of it) z z j /\ s = print_sid z (ef j) (ex j) (ey j).
 Proof.
-  induction l as [|a l IH]; cbn [map all_opt]; intros r x.
-  - intros [= <-]. cbn. split; [contradiction|]. intros (a & ps & [] & _).
-  - destruct (f a) as [b|] eqn:E; [|discriminate]. destruct (all_opt (map f l)) as [t|] eqn:Et; [|discriminate].
-    intros [= <-]. cbn [List.concat]. rewrite in_app_iff, (IH t x eq_refl). split.
-    + intros [H|(a' & ps' & Hin & HR & Hx)]; [exists a, b|exists a', ps']; cbn [In]; auto.
-    + intros (a' & ps' & [<-|Hin] & HR & Hx).
-      * left. rewrite E in HR. injection HR as <-. exact Hx.
-      * right. eauto.
+  intros F He Hn Ho. unfold check_q2s, must_err_q2e. rewrite He, (qvalid_not_refused items F). cbn [negb orb].
+  rewrite Hn, Ho, (elem_ids_valid z z items F). rewrite check_strs_sound. apply echeck_spec in He.
+  assert (R : forall s, In s (map (fun j => print_sid z (ef j) (ex j) (ey j)) (ref_ids z z items)) <->
+                        exists it j, In it items /\ zrel (tile_of it) z z j /\ s = print_sid z (ef j) (ex j) (ey j)).
+  { intros s. rewrite in_map_iff. split.
+    - intros (j & <- & Hj). apply ref_ids_spec in Hj; auto; try lia. destruct Hj as (it & Hit & Z). eauto.
+    - intros (it & j & Hit & Z & ->). exists j. split; [reflexivity|]. apply ref_ids_spec; auto; try lia. eauto. }
+  split; intros (A & B); (split; [exact A|]); intros s; rewrite B; [apply R|symmetry; apply R].
 Qed.
 
-Lemma ref_pairs_alt_spec oq oa E O es exp q k : Forall valid es -> 0 <= oq -> ref_pairs_alt oq oa E O es = Some exp ->
-  In (q, k) exp <-> exists i x' y' mn mx, In i es /\ rel1 (eh i) (ex i) oq x' /\ rel1 (eh i) (ey i) oq y' /\ q = interleave oq x' y' /\
+(* the altitude-key checker: acceptance = the statement of C11_ids_to_altitudekey_pairs on the observed groups *)
+Lemma elem_pairs_alt_spec oq oa E O es q k : Forall valid es -> 0 <= oq ->
+  In (q, k) (flat_map (elem_pairs_alt oq oa E O) es) <->
+  exists i x' y' mn mx, In i es /\ rel1 (eh i) (ex i) oq x' /\ rel1 (eh i) (ey i) oq y' /\ q = interleave oq x' y' /\
                       z2key (ef i) (ev i) oa E O = Ok (mn, mx) /\ mn <= k <= mx.
 Proof.
-  intros V Hoq. rewrite Forall_forall in V. unfold ref_pairs_alt.
-  match goal with |- context [all_opt (map ?f es)] => set (F := f) end.
-  destruct (all_opt (map F es)) as [pss|] eqn:Ea; [|discriminate]. intros [= <-].
-  rewrite (all_opt_concat_In F es pss (q, k) Ea). split.
-  - intros (i & ps & Hi & Hf & Hin). unfold F in Hf.
-    destruct (z2key (ef i) (ev i) oa E O) as [[mn mx]|] eqn:Ez; [|discriminate]. injection Hf as <-.
+  intros V Hoq. rewrite Forall_forall in V. rewrite in_flat_map. unfold elem_pairs_alt. split.
+  - intros (i & Hi & Hin). rewrite (proj2 (validb_spec i) (V i Hi)) in Hin.
+    destruct (z2key (ef i) (ev i) oa E O) as [[mn mx]|] eqn:Ez; [|contradiction].
     apply in_prod_iff in Hin. destruct Hin as [Hq Hk]. apply in_map_iff in Hq. destruct Hq as ([x' y'] & <- & Hh).
     pose proof (V i Hi) as (Hh0 & Hv0 & Hx & Hy & _). apply hzoom_exact in Hh; try lia. apply in_zrange in Hk.
     exists i, x', y', mn, mx. cbn [fst snd]. tauto.
   - intros (i & x' & y' & mn & mx & Hi & Rx & Ry & -> & Ez & Hk).
-    exists i. eexists. split; [exact Hi|]. unfold F. rewrite Ez. split; [reflexivity|].
+    exists i. split; [exact Hi|]. rewrite Ez, (proj2 (validb_spec i) (V i Hi)).
     pose proof (V i Hi) as (Hh0 & Hv0 & Hx & Hy & _).
     apply in_prod_iff. split; [|apply in_zrange; lia].
     apply in_map_iff. exists (x', y'). split; [reflexivity|]. apply hzoom_exact; try lia. auto.
 Qed.
-Lemma all_opt_None {A B} (f : A -> option B) l : all_opt (map f l) = None -> exists a, In a l /\ f a = None.
-Proof.
-  induction l as [|a l IH]; cbn [map all_opt]; [discriminate|].
-  destruct (f a) eqn:E; [|intros _; exists a; split; [now left|exact E]].
-  destruct (all_opt (map f l)); [discriminate|]. intros _. destruct (IH eq_refl) as (b0 & Hb & Eb). exists b0. split; [now right|exact Eb].
-Qed.
-Lemma ref_pairs_alt_none oq oa E O es : ref_pairs_alt oq oa E O es = None -> exists i, In i es /\ z2key (ef i) (ev i) oa E O = Err.
-Proof.
-  unfold ref_pairs_alt.
-  match goal with |- context [all_opt (map ?f es)] => set (F := f) end.
-  destruct (all_opt (map F es)) eqn:Ea; [discriminate|]. intros _.
-  destruct (all_opt_None F es Ea) as (i & Hi & Hf). exists i. split; [exact Hi|].
-  unfold F in Hf. destruct (z2key (ef i) (ev i) oa E O) as [[mn mx]|]; [discriminate|reflexivity].
-Qed.
-
-(* the altitude-key checker: acceptance = the statement of C11_ids_to_altitudekey_pairs on the observed groups *)
-Theorem check_e2qa_sound ids es oq oa E O exp gs obs : ids_domain ids = Some es -> qcheck oq oa = true ->
-  ref_pairs_alt oq oa E O es = Some exp -> is_err obs = false -> dec_groups obs = Some gs ->
+Theorem check_e2qa_sound ids es oq oa E O gs obs : ids_domain ids = Some es -> qcheck oq oa = true ->
+  (forall i, In i es -> is_ok (z2key (ef i) (ev i) oa E O) = true) -> is_err obs = false -> dec_groups obs = Some gs ->
   check_e2qa ids oq oa E O obs = true <->
   (forall g, In g gs -> g_hz g = oq /\ g_vz g = oa /\ par_eqb (g_par g) (VZ E, VZ O) = true /\ g_pairs g <> []) /\
   NoDup (List.concat (map g_pairs gs)) /\
@@ -621,12 +723,19 @@ Theorem check_e2qa_sound ids es oq oa E O exp gs obs : ids_domain ids = Some es 
      exists i x' y' mn mx, In i es /\ rel1 (eh i) (ex i) oq x' /\ rel1 (eh i) (ey i) oq y' /\ q = interleave oq x' y' /\
        z2key (ef i) (ev i) oa E O = Ok (mn, mx) /\ mn <= k <= mx).
 Proof.
-  intros D Hq Hr He Hg. unfold check_e2qa. rewrite D, Hq, Hr, He, Hg. rewrite check_groups_sound.
-  destruct (ids_domain_spec ids es D) as (_ & V). apply qcheck_spec in Hq.
+  intros D Hq Hz He Hg. destruct (ids_domain_spec ids es D) as (Pa & V).
+  assert (M : must_err_e2qa ids oq oa E O = false).
+  { unfold must_err_e2qa. rewrite Hq. cbn [negb orb]. pose proof Pa as F2. apply parse_all_Forall2 in F2.
+    clear Pa D. induction F2 as [|s i r t Hs F IH]; [reflexivity|]. cbn [existsb]. inversion V as [|? ? Vi Vt]; subst.
+    rewrite IH; [|intros j Hj; apply Hz; now right|exact Vt]. rewrite orb_false_r. unfold alt_refused. rewrite Hs.
+    destruct (valid_nonneg i Vi) as (_ & E' & _). rewrite E', (Hz i (or_introl eq_refl)). reflexivity. }
+  unfold check_e2qa. rewrite M, Pa, He, Hg. rewrite check_groups_sound. apply qcheck_spec in Hq.
   split; intros (A & B & C); (split; [exact A|split; [exact B|]]).
-  - intros q k. rewrite C. apply ref_pairs_alt_spec; auto; lia.
-  - intros [q k]. rewrite C. symmetry. apply ref_pairs_alt_spec; auto; lia.
+  - intros q k. rewrite C. apply elem_pairs_alt_spec; auto; lia.
+  - intros [q k]. rewrite C. symmetry. apply elem_pairs_alt_spec; auto; lia.
 Qed.
+Theorem check_e2qa_demands_error ids oq oa E O obs : must_err_e2qa ids oq oa E O = true -> check_e2qa ids oq oa E O obs = is_err obs.
+Proof. intros M. unfold check_e2qa. now rewrite M. Qed.
 
 (* two successive zoom changes, as computed by the round-trip checker *)
 Lemma zoom2_spec es oh ov bh bv j : Forall valid es -> 0 <= oh -> 0 <= ov -> 0 <= bh -> 0 <= bv ->
@@ -656,12 +765,12 @@ Theorem check_roundtrip_sound ids es oh ov bh bv p og ob gs back : ids_domain id
   (forall s, In s back <-> exists i m j, In i es /\ zrel i oh ov m /\ zrel m bh bv j /\ s = print_eid j) /\
   (same_zooms es oh ov bh bv = true -> forall s, In s back <-> In s (map print_eid es)).
 Proof.
-  intros D Hq He Hn Hg Hb. unfold check_roundtrip. rewrite D, Hq, He, Hb. cbn [andb].
+  intros D Hq He Hn Hg Hb. destruct (domain_e2q ids es oh ov D Hq) as (M & Pa & _ & Fv).
+  unfold check_roundtrip. rewrite M, He, Pa, Hb, Fv. cbn [negb orb].
   rewrite !andb_true_iff, (check_e2q_sound ids es oh ov p gs og D Hq Hn Hg), check_strs_sound.
   destruct (ids_domain_spec ids es D) as (_ & V). apply qcheck_spec in Hq. apply echeck_spec in He.
-  assert (R : forall s, In s (map print_eid (flat_map (zoom_ids bh bv) (flat_map (zoom_ids oh ov) es))) <->
-                        exists i m j, In i es /\ zrel i oh ov m /\ zrel m bh bv j /\ s = print_eid j).
-  { intros s. rewrite in_map_iff. split.
+  assert (R : forall s, In s (exp2 oh ov bh bv es) <-> exists i m j, In i es /\ zrel i oh ov m /\ zrel m bh bv j /\ s = print_eid j).
+  { intros s. unfold exp2. rewrite in_map_iff. split.
     - intros (j & <- & Hj). apply zoom2_spec in Hj; auto; try lia. destruct Hj as (i & m & A & B & C). exists i, m, j. auto.
     - intros (i & m & j & A & B & C & ->). exists j. split; [reflexivity|]. apply zoom2_spec; auto; try lia. eauto. }
   assert (S : (if same_zooms es oh ov bh bv then str_seteqb back (map print_eid es) else true) = true <->
@@ -670,24 +779,8 @@ Proof.
     - unfold str_seteqb. rewrite (seteqb_spec String.eqb String.eqb_spec). tauto.
     - split; [discriminate|reflexivity]. }
   rewrite S. split.
-  - intros ((A & (N & B)) & C). split; [exact A|split; [exact N|split; [|exact C]]]. intros s. rewrite B. apply R.
-  - intros (A & N & B & C). split; [split; [exact A|split; [exact N|]]|exact C]. intros s. rewrite B. symmetry. apply R.
-Qed.
-
-Theorem check_q2s_sound items z o obs : Forall qvalid items -> echeck z z = true -> is_err obs = false -> as_LS obs = Some o ->
-  check_q2s items z obs = true <->
-  NoDup o /\ forall s, In s o <-> exists it j, In it items /\ zrel (tile_of it) z z j /\ s = print_sid z (ef j) (ex j) (ey j).
-Proof.
-  intros F He Hn Ho. unfold check_q2s.
-  assert (Fb : forallb qvalidb items = true).
-  { apply forallb_forall. intros it Hit. apply qvalidb_spec. rewrite Forall_forall in F. now apply F. }
-  rewrite Fb, He, Hn, Ho. cbn [andb]. rewrite check_strs_sound. apply echeck_spec in He.
-  assert (R : forall s, In s (map (fun j => print_sid z (ef j) (ex j) (ey j)) (ref_ids z z items)) <->
-                        exists it j, In it items /\ zrel (tile_of it) z z j /\ s = print_sid z (ef j) (ex j) (ey j)).
-  { intros s. rewrite in_map_iff. split.
-    - intros (j & <- & Hj). apply ref_ids_spec in Hj; auto; try lia. destruct Hj as (it & Hit & Z). eauto.
-    - intros (it & j & Hit & Z & ->). exists j. split; [reflexivity|]. apply ref_ids_spec; auto; try lia. eauto. }
-  split; intros (A & B); (split; [exact A|]); intros s; rewrite B; [apply R|symmetry; apply R].
+  - intros (A & ((N & B) & C)). split; [exact A|split; [exact N|split; [|exact C]]]. intros s. rewrite B. apply R.
+  - intros (A & N & B & C). split; [exact A|split; [split; [exact N|]|exact C]]. intros s. rewrite B. symmetry. apply R.
 Qed.
 
 Definition table_C11 : table :=
